@@ -1027,7 +1027,7 @@ def edge_schemas() -> List[Tuple[str, Schema]]:
     R = lambda *path: TypeRef("message", "", fc, tuple(path))
     E = lambda *path: TypeRef("enum", "", fc, tuple(path))
     S("feature-cover", fc,
-      imports=[WKT_FILE["Timestamp"], WKT_FILE["Duration"], WKT_FILE["Int32Value"]],
+      imports=[WKT_FILE["Timestamp"], WKT_FILE["Duration"], WKT_FILE["Int32Value"], WKT_FILE["Empty"]],
       enums=[Enum("Color", [("COLOR_UNSPECIFIED", 0), ("COLOR_RED", 1), ("COLOR_NEG", -3)])],
       msgs=[
           Message("Leaf", [Field("n", 1, scalar("int32")), Field("s", 2, scalar("string"))]),
@@ -1054,8 +1054,23 @@ def edge_schemas() -> List[Tuple[str, Schema]]:
           Method("StreamUnary", R("Leaf"), R("Cover"), True, False),
           Method("StreamStream", R("Cover"), R("Leaf"), True, True),
           Method("snake_name", R("Tree"), R("Tree")),
+      ]), Service("WktSvc", [
+          Method("Now", wkt("Empty"), wkt("Timestamp")),
+          Method("Ticks", wkt("Duration"), wkt("Timestamp"), False, True),
+          Method("Collect", wkt("Timestamp"), wkt("Duration"), True, False),
+          Method("Wrap", wkt("Int32Value"), wkt("StringValue"), True, True),
       ])])
 
+    # RPCs whose request / response types are well-known types, in a package whose messages use none of them (so
+    # nothing else imports datetime / timedelta / the bundled google package)
+    S("wkt-rpc", "edge.wktrpc", imports=[WKT_FILE["Timestamp"], WKT_FILE["Duration"], WKT_FILE["Int32Value"], WKT_FILE["Empty"]],
+      msgs=[Message("Plain", [Field("a", 1, scalar("int32"))])],
+      services=[Service("Clock", [
+          Method("Now", wkt("Empty"), wkt("Timestamp")),
+          Method("Ticks", TypeRef("message", "", "edge.wktrpc", ("Plain",)), wkt("Timestamp"), False, True),
+          Method("Collect", wkt("Duration"), TypeRef("message", "", "edge.wktrpc", ("Plain",)), True, False),
+          Method("Wrap", wkt("Int32Value"), wkt("StringValue"), True, True),
+      ])])
     # message names that shadow typing names used by the template
     S("typing-name-message", "edge.typingnames", msgs=[
         Message("List", [Field("a", 1, scalar("int32"))]),
